@@ -209,11 +209,15 @@ func c04Unit(j *Job, u *JobUnit) error {
 					ok = false
 				}
 			}
-			// (b) canonical and (c) explicit contract form produced by another party
+			canonicalOK := false
+			// (b) canonical, (c) explicit and (d) nulls form (unset members spelled null: proto3 JSON reads null as the default value) produced by another party
 			for _, form := range []struct {
 				name string
 				o    model.EncOpts
-			}{{"canonical", model.EncOpts{}}, {"explicit", model.EncOpts{Explicit: true}}} {
+			}{{"canonical", model.EncOpts{}}, {"explicit", model.EncOpts{Explicit: true}}, {"nulls", model.EncOpts{Nulls: true}}} {
+				if form.name == "nulls" && !canonicalOK {
+					continue // the nulls form says something new only where the canonical form is read correctly
+				}
 				v, err := model.Encode(p.Msg.ProtoReflect(), form.o)
 				if err != nil {
 					return true // schema not encodable by the model (collision): not judged
@@ -226,6 +230,8 @@ func c04Unit(j *Job, u *JobUnit) error {
 				} else if !equalNorm(p.Msg, back) {
 					bad(form.name+"_differs", fmt.Sprintf("json=%s | got=%s", clip(data), protoText(back)))
 					ok = false
+				} else if form.name == "canonical" {
+					canonicalOK = true
 				}
 			}
 			if ok {
